@@ -86,7 +86,7 @@ func toSet(mask string) set {
 
 type ritem struct {
 	m rmsg
-	t int
+	t string
 }
 
 type oracle struct {
@@ -95,7 +95,7 @@ type oracle struct {
 	rng   []int
 	items map[string]ritem // collection
 	val   *rmsg            // value
-	valT  int
+	valT  string
 }
 
 func newOracle(cfg Cfg) *oracle {
@@ -103,13 +103,13 @@ func newOracle(cfg Cfg) *oracle {
 	if cfg.Kind == "val" {
 		if len(cfg.Init) > 0 && cfg.Init[0] != "nil" {
 			m := rparse(cfg.Init[0])
-			o.val = &m
+			o.val, o.valT = &m, "0"
 		}
 	} else {
 		for _, rec := range cfg.Init {
 			p := strings.SplitN(rec, "~", 2)
 			if _, dup := o.items[p[0]]; !dup {
-				o.items[p[0]] = ritem{m: rparse(p[1])}
+				o.items[p[0]] = ritem{m: rparse(p[1]), t: "0"}
 			}
 		}
 	}
@@ -123,12 +123,12 @@ func (o *oracle) icpt(id string) string {
 	return namedIcpt(o.cfg.Icpt)(id)
 }
 
-func (o *oracle) now() int { t := o.clk; o.clk += o.cfg.Tick; return t }
+func (o *oracle) now() string { t := o.clk; o.clk += o.cfg.Tick; return strconv.Itoa(t) }
 
-func (o *oracle) writeTime(op Op) int {
+// writeTime: a given write time is used whatever its value; otherwise one clock reading.
+func (o *oracle) writeTime(op Op) string {
 	if v, ok := op.opt("wt"); ok {
-		n, _ := strconv.Atoi(v)
-		return n
+		return v
 	}
 	return o.now()
 }
@@ -275,7 +275,7 @@ func (o *oracle) dump() string {
 		if o.val == nil {
 			return fmt.Sprintf("st=nil@? clk=%d", o.clk)
 		}
-		return fmt.Sprintf("st=%s@%d clk=%d", *o.val, o.valT, o.clk)
+		return fmt.Sprintf("st=%s@%s clk=%d", *o.val, o.valT, o.clk)
 	}
 	ids := make([]string, 0, len(o.items))
 	for id := range o.items {
@@ -284,7 +284,7 @@ func (o *oracle) dump() string {
 	sort.Strings(ids)
 	xs := make([]string, len(ids))
 	for i, id := range ids {
-		xs[i] = fmt.Sprintf("%s~%s@%d", id, o.items[id].m, o.items[id].t)
+		xs[i] = fmt.Sprintf("%s~%s@%s", id, o.items[id].m, o.items[id].t)
 	}
 	return fmt.Sprintf("st=%s clk=%d", showList(xs), o.clk)
 }
@@ -331,7 +331,7 @@ func (o *oracle) step(op Op) string {
 		}
 		o.val, o.valT = &nm, o.writeTime(op)
 		et := o.writeTime(op)
-		return fmt.Sprintf("val=%s err=- ev=[%s|%d] | %s", nm, nm, et, o.dump())
+		return fmt.Sprintf("val=%s err=- ev=[%s|%s] | %s", nm, nm, et, o.dump())
 	case "add", "upd":
 		xa, cia := op.has("xa") || op.Op == "add", op.has("cia") || op.Op == "add"
 		id := o.icpt(op.ID)
@@ -384,7 +384,7 @@ func (o *oracle) step(op Op) string {
 		if old != nil {
 			kind, oldS = "UPDATE", old.String()
 		}
-		ev := fmt.Sprintf("%s|%d|%s|%s|%s|", id, et, kind, oldS, nm)
+		ev := fmt.Sprintf("%s|%s|%s|%s|%s|", id, et, kind, oldS, nm)
 		return cout(nm.String(), "-", []string{ev}, ids, created) + " | " + o.dump()
 	case "del":
 		id := o.icpt(op.ID)
@@ -406,7 +406,7 @@ func (o *oracle) step(op Op) string {
 			return cout(it.m.String(), "FailedPrecondition", nil, nil, 0) + " | " + o.dump()
 		}
 		delete(o.items, id)
-		ev := fmt.Sprintf("%s|%d|REMOVE|%s|nil|", id, o.now(), it.m)
+		ev := fmt.Sprintf("%s|%s|REMOVE|%s|nil|", id, o.now(), it.m)
 		return cout(it.m.String(), "-", []string{ev}, nil, 0) + " | " + o.dump()
 	}
 	return "!bad-op"
